@@ -432,6 +432,14 @@ func c17Run(e *core.Env) {
 	k, w := 3, 6
 	mf := append(Dense(k, w), Edge(EdgeExps)...)
 	mf = append(mf, c17WordFamily()...)
+	// coefficients of hundreds of digits with one to three integral digits (a digit count estimated from the bit
+	// length is off by one per ~300 digits)
+	for _, n := range []int{290, 301, 333, 600, 700, 1000, 2000} {
+		for _, lead := range []int{1, 2, 3} {
+			mf = append(mf, FinBig(bigOf(strings.Repeat("9876543210", n/10+1)[:n]), int32(-(n-lead)), lead == 2),
+				FinBig(bigOf("7"+strings.Repeat("0", n-1)), int32(-(n-lead)), false))
+		}
+	}
 	// exponents at and beyond the package limits, up to the ends of int32 (a Decimal is a plain struct: New(1, math.MinInt32) is a value)
 	for _, ex := range []int32{math.MinInt32, math.MinInt32 + 1, -2147483647 + 100000, -100001, -100000, 100000, 100001, math.MaxInt32 - 1, math.MaxInt32} {
 		for _, c := range []int64{0, 1, 5, 1234567890123456789} {
